@@ -98,17 +98,24 @@ def build_harness(name, src, objs, extra=()):
     return exe, None
 
 
-def gc_build(max_gb=6.0):
-    """Keep the object cache bounded: drop least-recently-used files beyond max_gb."""
-    files = []
+def gc_build(max_gb=12.0):
+    """Keep the object cache bounded: drop least-recently-used files beyond max_gb.
+    Tolerates concurrent writers (files may vanish between listing and stat)."""
+    ents = []
     for d in ("obj", "bin"):
         p = BUILD / d
-        if p.exists():
-            files += [f for f in p.iterdir() if f.is_file()]
-    files.sort(key=lambda f: f.stat().st_atime, reverse=True)
+        if not p.exists(): continue
+        for f in p.iterdir():
+            if ".tmp" in f.name: continue
+            try:
+                st = f.stat()
+            except OSError:
+                continue
+            ents.append((st.st_atime, st.st_size, f))
+    ents.sort(key=lambda e: e[0], reverse=True)
     tot = 0
-    for f in files:
-        tot += f.stat().st_size
+    for _, size, f in ents:
+        tot += size
         if tot > max_gb * (1 << 30):
             try: f.unlink()
             except OSError: pass
